@@ -69,6 +69,21 @@ def scripts(rnd, quick, F):
         elif k < 0.65:
             w = [rnd.choice([192, 219, 220, 0, 128, 255, rnd.randint(0, 255)]) for _ in range(rnd.randint(0, 60))]
         sc.append(rx(tr, mem16, cap, w, verdict=rnd.choice([0, 0, 5, 11]), data=[rnd.randint(0, 255) for _ in range(30)]))
+    # TCP length prefixes that are not minimal (legal varints), up to the ten-octet limit and beyond it, and prefixes announcing
+    # 2^28 octets and more: the unit is read like any other / ends inside the frame / is not a varint at all
+    for mem16 in (0, 1):
+        for n, write in ((0, 0), (1, 0), (2, 1)):
+            ws = 2 if mem16 else 1
+            o = request(1, write, mem16, 0xC0DB, 0x10, n, [7] * (n * ws) if write else [])
+            L = len(o)
+            for pad in (1, 2, 3, 4, 5, 8, 9, 10, 11):
+                pre = [(L & 0x7f) | 0x80] + [0x80] * (pad - 1) + [0x00] if L < 128 else None
+                if pre:
+                    sc.append(rx(1, mem16, 64, pre + o, verdict=0, data=[9] * 8))
+            sc.append(rx(1, mem16, 64, [0x80] * 4 + [0x00] + o, verdict=0))                     # announces nothing, in five octets
+            sc.append(rx(1, mem16, 64, [L | 0x80, 0x80, 0x80, 0x80, 0x01] + o, verdict=0))       # announces 2^28 + L
+            sc.append(rx(1, mem16, 64, [0xFF] * 9 + [0x01] + o, verdict=0))                      # announces 2^64 - 1
+            sc.append(rx(1, mem16, 64, [0xFF] * 10 + [0x01] + o, verdict=0))                     # eleven octets: not a varint
     rnd.shuffle(sc)
     for i in range(0, len(sc), 300):
         yield sc[i:i + 300]
